@@ -72,9 +72,18 @@ pub(super) fn write_ht(
         sent += 1;
     }
 
+    // Drain every completion, then report the first failed page write (if any) so that the
+    // caller does not go on to truncate the WAL.
+    let mut first_err = None;
     while sent > 0 {
-        io_handle.recv().unwrap();
+        let complete = io_handle.recv().unwrap();
+        if let Err(e) = complete.result {
+            first_err.get_or_insert(e);
+        }
         sent -= 1;
+    }
+    if let Some(e) = first_err {
+        return Err(e);
     }
 
     #[cfg(nomt_verif)]
